@@ -5,7 +5,8 @@
    C15/Model.v that the correspondence check executes.  Every statement holds
    for every scalar type (reals and binary64 alike) and every environment. *)
 From Coq Require Import List NArith ZArith Bool String Ascii Reals.
-From T4V Require Import Base.Str Base.Scalar C15.Model C15.Proofs C15.Canon C15.CanonProofs.
+From T4V Require Import Base.Str Base.Scalar C15.Model C15.Proofs C15.Canon C15.CanonProofs C15.LinkC12.
+From T4V Require C12.Model C12.Spec C12.ProofsCells.
 Import ListNotations.
 Open Scope string_scope.
 
@@ -224,6 +225,39 @@ Theorem C15_like_mat_void : forall (T : Type) (SC : Scalar T) (e : env (T:=T)) (
    end).
 Proof. exact @like_mat_void. Qed.
 Print Assumptions C15_like_mat_void.
+
+(* ---- linked with C12 (importances) ---- *)
+
+(* C15's importance dictionary is C12's: on the same IMP entries (particles
+   named, value), the dictionary, the importance kept and the last value per
+   particle of C15's model are C12's assign_all / imp_of_entries / last_value *)
+Theorem C15_importance_dictionary_linked : forall (T : Type) (SC : Scalar T)
+    (es : list (list string * T)),
+  imp_dict (log_of es) = C12.ProofsCells.assign_all es [] /\
+  imp_value SC (log_of es) = C12.ProofsCells.imp_of_entries SC es /\
+  forall p, imp_last (log_of es) p = C12.Spec.last_value p es.
+Proof. exact @importance_dictionary_is_C12. Qed.
+Print Assumptions C15_importance_dictionary_linked.
+
+(* with C12's entries_zero_iff: the copy made by LIKE n BUT o has importance
+   zero (and is left out of the conversion) iff, for every particle named on the
+   cards of the chain or in the BUT list, the last value — the BUT list's if it
+   names the particle, else the inherited one — is zero *)
+Theorem C15_like_importance_zero_iff_linked : forall (P : C12.Model.prims R) (e : env (T:=R))
+    (tbl : table) (fuel rank : nat) (lat : option (list (Z * Z))) (mat0 g0 o : string) (n : Z)
+    (d : nat) (mx gx ox : string) (kb ko : kws (T:=R)) (c : cell (T:=R)),
+  search_like (lower g0) = Some n -> denotes tbl n d (mx, gx, ox) -> (d < fuel)%nat ->
+  sq_state false ox = false -> leads_colon o = false -> kw_head (tokenize o) ->
+  parse_kws RS e (tokenize ox) = Ok kb -> parse_kws RS e (tokenize o) = Ok ko ->
+  parse_one_cell RS fuel e tbl rank lat (mat0, g0, o) = Ok c ->
+  (k_impl kb ++ k_impl ko)%list <> [] ->
+  Forall (fun pv => 0 <= snd pv)%R (k_impl kb ++ k_impl ko)%list ->
+  (c_imp c = 0%R <->
+   forall p, In p (map fst (k_impl kb ++ k_impl ko)%list) ->
+             match imp_last (k_impl ko) p with Some v => Some v | None => imp_last (k_impl kb) p end
+             = Some 0%R).
+Proof. exact like_importance_zero_iff_linked. Qed.
+Print Assumptions C15_like_importance_zero_iff_linked.
 
 (* the two former counter-examples, now equalities: "2 like 1 but imp:n=0" on
    "1 1 -1.0 -1 imp:n=1 imp:p=0" is the card "1 -1.0 -1 imp:n=0 imp:p=0", and
